@@ -17,7 +17,7 @@ def pair(F, regex, n=2):
     return sorted(bs, key=lambda b: b.line)
 
 
-@rule("R18.1", props=["C18"], floor=8, title="both try_push: bucket/shard from the high bits with the matching mask, each size counted once; constructors build masks (1 << bits) - 1")
+@rule("R18.1", props=["C18", "C07", "C08"], scope_all=True, floor=8, title="both try_push: bucket/shard from the high bits with the matching mask, each size counted once; constructors build masks (1 << bits) - 1")
 def r18_1(ctx, rr):
     F = ctx.F()
     inl = ctx.memo("inliner", lambda: make_inliner(F))
@@ -66,7 +66,7 @@ def r18_1(ctx, rr):
         rr.check(ok, "%s:size-tables" % short_fn(c.key), "%s must allocate 2^buckets_high_bits bucket counters and 2^max_shard_high_bits shard counters" % c.key, c.span)
 
 
-@rule("R18.2", props=["C18"], floor=4, title="both into_shard_store: sizes aggregated over chunks of 2^(max - shard_bits) under the asserted bound; fields carried")
+@rule("R18.2", props=["C18", "C07", "C08"], scope_all=True, floor=4, title="both into_shard_store: sizes aggregated over chunks of 2^(max - shard_bits) under the asserted bound; fields carried")
 def r18_2(ctx, rr):
     F = ctx.F()
     a, b = pair(F, r"SigStoreImpl<S, V, .*> as utils::sig_store::SigStore<S, V>>::into_shard_store$")
@@ -155,7 +155,7 @@ def iter_summary(F, b):
     return S
 
 
-@rule("R18.3", props=["C18"], floor=6, title="ShardIterator::next (file- and memory-backed): aggregate 2^(bucket-shard) buckets per shard, split a bucket into 2^(shard-bucket) shards by the high bits, advance both cursors, destroy buckets only when not borrowed")
+@rule("R18.3", props=["C18", "C07", "C08"], scope_all=True, floor=6, title="ShardIterator::next (file- and memory-backed): aggregate 2^(bucket-shard) buckets per shard, split a bucket into 2^(shard-bucket) shards by the high bits, advance both cursors, destroy buckets only when not borrowed")
 def r18_3(ctx, rr):
     F = ctx.F()
     a, b = pair(F, r"^<utils::sig_store::ShardIterator<S, V, .*, T> as std::iter::Iterator>::next$")
@@ -197,7 +197,7 @@ def r18_3(ctx, rr):
     rr.check(sorted(set(s1["cursor_ops"])) == sorted(set(s2["cursor_ops"])) and sorted(set(s1["split_index"])) == sorted(set(s2["split_index"])), "ShardIterator::next:file~memory", "the file-backed and the memory-backed shard iterators disagree on cursor updates or on the split index: %s vs %s" % (sorted(set(s1["cursor_ops"])), sorted(set(s2["cursor_ops"]))), a.span)
 
 
-@rule("R18.4", props=["C18"], floor=1, title="file-backed split: the read loop consumes exactly the pairs of the bucket (while remaining > 0: read min(buffer, remaining); remaining -= read)")
+@rule("R18.4", props=["C18", "C07", "C08"], scope_all=True, floor=1, title="file-backed split: the read loop consumes exactly the pairs of the bucket (while remaining > 0: read min(buffer, remaining); remaining -= read)")
 def r18_4(ctx, rr):
     F = ctx.F()
     bs = [b for b in F.find(r"^<utils::sig_store::ShardIterator<S, V, .*, T> as std::iter::Iterator>::next$") if "BufReader" in b.key]
@@ -244,7 +244,7 @@ def r18_4(ctx, rr):
     rr.check(ok, "ShardIterator::next[file]:split-read-loop", "the file-backed split must read the whole bucket: %s" % why, b.span)
 
 
-@rule("R18.5", props=["C18"], floor=2, title="file-backed shard iterator: a bucket file is read from its start (seek to 0 on the same bucket first) and only with read_exact (a short read is an error, never a shorter shard)")
+@rule("R18.5", props=["C18", "C07", "C08"], scope_all=True, floor=2, title="file-backed shard iterator: a bucket file is read from its start (seek to 0 on the same bucket first) and only with read_exact (a short read is an error, never a shorter shard)")
 def r18_5(ctx, rr):
     """Each pass over a bucket file must be self-contained: positioned at offset 0 by the pass itself (an
     earlier, abandoned pass leaves the file anywhere) and read in full. `Read::read` may return fewer
